@@ -2,5 +2,5 @@ package main
 
 func init() {
 	reg("C14", propCfg{Pkg: "./props/c14", Race: true, RaceIsViolation: true, Rule: "metamorphic: shared parsed tree vs fresh parse; structural dump before/after; race detector on",
-		Assumptions: assume("the structural dump (internal/dump) shows every field of every node incl. CallExpr.Func and literal reflect.Values", "programs whose behaviour depends on map iteration order are not generated for the result comparison (probes inside multi-entry map loops are compared as multisets)", "a data race reported by the race detector whose stacks name package github.com/mattn/anko is reported as a violation (the report text is the saved artefact; not replayable deterministically); other reports make the run inconclusive")})
+		Assumptions: assume("the structural dump (internal/dump) shows every field of every node incl. CallExpr.Func and literal reflect.Values", "programs whose behaviour depends on map iteration order are not generated for the result comparison (probes inside multi-entry map loops are compared as multisets)", "a data race reported by the race detector whose stacks name package github.com/mattn/anko is reported as a violation (the report text is the saved artefact; not replayable deterministically); other reports make the run inconclusive", "'every run yields the result it would yield alone' is read for whatever *vm.Options value the host passes, one pointer passed to every run included (sub-check options): the statement names separate environments as the only condition", "the error values a script can catch are values the interpreter hands out like any other: a store a script makes through a caught error must not be visible to a later run (sub-check residue)")})
 }
